@@ -1,8 +1,8 @@
 package props
 
 import (
-	"go/constant"
 	"fmt"
+	"go/constant"
 	"go/token"
 	"go/types"
 	"strings"
@@ -521,7 +521,6 @@ func (x *Ctx) destinationRulesFor(r *core.Result, rs *core.RuleStat, names ...st
 		}
 	}
 }
-
 
 var stdlibConv = map[string]string{"string": "StdLibCompatibleString", "[]interface{}": "StdLibCompatibleSlice", "map[string]interface{}": "StdLibCompatibleMap"}
 
